@@ -7,3 +7,5 @@ import "time"
 func verifYield(label string, key any) {}
 
 func verifTimer(shardDir string, t *time.Timer) *time.Timer { return t }
+
+func verifSyncFault(role string, chunk int) error { return nil }
